@@ -7,7 +7,7 @@ from propbase import KERNEL, HARNESS
 def regen_encoder_tables(ctx):
     """DecMode discriminants, KEYBOARD_LEVEL, grey-depth SGR codes: re-extracted from the source on every run"""
     return ctx["sh"]([sys.executable, os.path.join(ctx["root"], "translate", "enc_tables.py"), "encoder", "color"],
-                     cwd=ctx["root"], env=dict(ctx["env"], VERIF_REPO=ctx["repo"]))
+                     cwd=ctx["root"], env=dict(ctx["env"], VERIF_REPO=ctx["repo"], VERIF_EXE=ctx["exe"] or ""))
 
 
 PROP = {'gen': [],
